@@ -312,7 +312,7 @@ func c18Profiles(tier string) []Profile {
 		nS, nR, bound = 3, 4, 3
 	}
 	return []Profile{
-		{Name: "scripts", Exec: c18ScriptExec(nS, true), Budget: map[int]int{explore.ClassSched: bound}, ShardLevel: 3,
+		{Name: "scripts", Exec: c18ScriptExec(nS, true), Budget: map[int]int{explore.ClassSched: bound}, ShardLevel: 3, FreeRun: true,
 			Rule: fmt.Sprintf("collection sizes 0..%d x {cached, flushed+re-opened} x direction x withValue x every consumer word over {Next, Close} (ending in Close or in a Next that returned false, plus up to two further calls after the end) x every interleaving of consumer and producer goroutine with at most %d preemptions (channels are modelled inside the scheduler: a blocked goroutine is visibly not enabled); afterwards the consumer mutates, runs a second iterator and reads everything. Oracles: delivered sequence = model range; Next after Close/exhaustion is false; no deadlock (no enabled thread while the consumer is unfinished); no leak (no library goroutine alive at quiescence); the pinned version is released (reference count of the current version back to 1, not chained)", nS, bound)},
 		{Name: "reentrant", Exec: c18Reentrant(nR), ShardLevel: 2,
 			Rule: fmt.Sprintf("collection sizes 1..%d x {cached, flushed+re-opened} x outer API in {Ascend, Descend, AscendEx, DescendEx, IterateAscend, IterateDescend, AscendBlockEx, Random} x every callback position x inner call in {Get, Min, GetTotals, nested visit, Snapshot+read+Close, iterator with early close, Len, Set (overwrite), Set (new key), Delete, Flush, EvictSomeItems} on the same store; re-acquiring a held lock would show as 'no enabled thread'. Oracles: no deadlock/hang/panic, inner results = model, the outer visit still delivers exactly the version pinned at its start, final contents = model", nR)},
